@@ -26,6 +26,13 @@ Theorem C12_dimension_check : forallb (check_fn exclusions) functions = true.
 Proof. exact all_functions_ok. Qed.
 Print Assumptions C12_dimension_check.
 
+(* the exclusion table is tight: it lists EXACTLY the ids that fail the dimension check on the current tree
+   (a repaired site must leave the table and is proved from then on) *)
+Theorem C12_exclusions_tight :
+  forallb (fun id => mem id exclusions) failing = true /\ forallb (fun id => mem id failing) exclusions = true.
+Proof. exact exclusions_tight. Qed.
+Print Assumptions C12_exclusions_tight.
+
 (* every branch decision (comparison) outside the exclusion table is unchanged when all lengths are
    multiplied by s > 0, and when all excitations are multiplied by s > 0 *)
 Theorem C12_masks_scale_invariant_partial :
@@ -53,11 +60,11 @@ Print Assumptions C12_core_degree_partial.
 
 (* which classes that covers, with which degrees: ALL returned components (B, H, and J, M where the
    wrapper computes them) of these entry points have exactly these degrees and none is excluded:
-   dipole length^-3, circle and polyline length^-1, sphere / cuboid / cylinder / tetrahedron unit
+   dipole length^-3, circle and polyline length^-1, sphere / cuboid / cylinder / triangle / tetrahedron unit
    independent; all proportional to the excitation *)
 Theorem C12_core_degree_table : forallb returns_proved
   [("dipole", (-6, 2)%Z); ("sphere", (0, 2)%Z); ("cuboid", (0, 2)%Z); ("cylinder", (0, 2)%Z);
-   ("circle", (-2, 2)%Z); ("polyline", (-2, 2)%Z); ("tetrahedron", (0, 2)%Z)] = true.
+   ("circle", (-2, 2)%Z); ("polyline", (-2, 2)%Z); ("triangle", (0, 2)%Z); ("tetrahedron", (0, 2)%Z)] = true.
 Proof. exact return_table_ok. Qed.
 Print Assumptions C12_core_degree_table.
 
@@ -82,9 +89,11 @@ Print Assumptions C12_scale_multiplies_lengths.
 Theorem C12_scale_keeps_dimensionless : forall (G : env) (s : R) (rho : string -> R) (x : string),
   G x = Some 0%Z -> scale G (sqrt s) rho x = rho x.
 Proof. exact scale_dimless. Qed.
+Print Assumptions C12_scale_keeps_dimensionless.
 
 Theorem C12_factor_inverse_length : forall s : R, 0 < s -> powerRZ (sqrt s) (-2) = / s.
 Proof. exact powerRZ_sqrt_m2. Qed.
+Print Assumptions C12_factor_inverse_length.
 
 Theorem C12_factor_inverse_cube : forall s : R, 0 < s -> powerRZ (sqrt s) (-6) = / (s * s * s).
 Proof. exact powerRZ_sqrt_m6. Qed.
@@ -92,6 +101,7 @@ Proof. exact powerRZ_sqrt_m6. Qed.
 Theorem C12_factor_proportional : forall s : R, 0 < s -> powerRZ (sqrt s) 2 = s.
 Proof. exact sqrt_sq_pz. Qed.
 Print Assumptions C12_factor_inverse_cube.
+Print Assumptions C12_factor_proportional.
 
 (* non-vacuity: the hypotheses of the two main theorems are satisfiable (sphere: the inside/outside
    comparison r > r_sphere and the first returned component) *)
@@ -99,7 +109,9 @@ Example C12_masks_nonvacuous :
   exists id cs c, In sphere_rec functions /\ In (id, cs) (fn_cmps sphere_rec) /\ mem id exclusions = false /\
     In c cs /\ scale_invariant (fun _ _ => Some 0).
 Proof. exact masks_nonvacuous. Qed.
+Print Assumptions C12_masks_nonvacuous.
 
 Example C12_core_degree_nonvacuous :
   exists id e, In (id, (0, 2)%Z, e) (fn_rets sphere_rec) /\ mem id exclusions = false.
 Proof. exact rets_nonvacuous. Qed.
+Print Assumptions C12_core_degree_nonvacuous.
